@@ -37,6 +37,7 @@ func init() {
 	judges["ws-test-cfg"] = func(r *Run) []Finding { return onlyRules(judges["ws-test"](r), cfgRules...) }
 	judges["ws-traffic-cfg"] = func(r *Run) []Finding { return onlyRules(judges["ws-traffic"](r), cfgRules...) }
 	judges["ws-baseline"] = func(r *Run) []Finding { return nil }
+	judges["ws-countonly"] = func(r *Run) []Finding { return onlyRules(ruleFindings(r), "nas.count") }
 	judges["ws-badcred"] = func(r *Run) []Finding {
 		var fs []Finding
 		for _, e := range r.Events {
@@ -231,6 +232,30 @@ func checkC02(c *Ctx) {
 			j.S.Config.NSvc, j.S.Config.NRel = max(j.S.Config.NSvc, k+1), max(j.S.Config.NRel, k+1)
 		}
 	}
+	// a service request may be refused too (SERVICE REJECT in a DownlinkNASTransport). What the pinned
+	// code then does at NGAP level is its own (known) business; what is judged here is only that no
+	// uplink NAS COUNT is used twice under one key in whatever follows.
+	o = GenOpts{Profile: "c02-svcreject", Mode: "test", MinReg: 1, MaxReg: 3, Sessions: true, MaxCount: 3, Latency: "swarm-fast", ExplicitUEs: 3, OptIEs: true}
+	sj := wsJobs(c.Seed, nSlow/2, o, "ws-countonly")
+	for i, j := range sj {
+		if len(j.S.UEs) == 0 {
+			continue
+		}
+		cfg := &j.S.Config
+		k := i % len(j.S.UEs)
+		j.S.UEs[k].SvcReject = []int{9, 10, 22, 28, 111}[i%5]
+		cfg.NPdu, cfg.NSvc = max(cfg.NPdu, k+1), max(cfg.NSvc, k+1)
+		cfg.NRel, cfg.NDereg = max(cfg.NRel, k+1), max(cfg.NDereg, k+1)
+	}
+	c.Batch(sj, func(j Job, r *Run, fs []Finding) {
+		for _, e := range r.Events {
+			if e.Ev == "dl" && strings.HasSuffix(e.Label, "ServiceReject") {
+				c.Probes["service-request-refused-by-the-AMF"]++
+				c.Faults["service-reject"]++
+				break
+			}
+		}
+	})
 	c.Batch(rj, func(j Job, r *Run, fs []Finding) {
 		for _, e := range r.Events {
 			if e.Ev == "dl" && strings.HasSuffix(e.Label, "PDUSessionEstablishmentReject") {
@@ -500,7 +525,7 @@ func init() {
 func checkC16(c *Ctx) {
 	c.Rule = "one evaluation = one simulated test-mode run registering a population of N UEs; at every InitialUEMessage the reference AMF checks that the SUPI is new, is initial IMSI + index with the same number of digits and PLMN, that the RAN-UE-NGAP-ID is new, that exactly one ciphering and one integrity algorithm are advertised, and RES*/MAC verify under the configured K and OP/OPc; distinct = distinct (N, IMSI shape) signature; non-trivial = N >= 2"
 	c.Assume = append(c.Assume, assumptionsWS...)
-	pops := []int{1, 2, 3, 10, 100, 300}
+	pops := []int{1, 2, 3, 10, 100, 300, 9999, 10000} // one run each at the top of the range (a few seconds of wall time, hours of simulated time)
 	reps := 300
 	if c.Tier == "thorough" {
 		pops = []int{1, 2, 3, 10, 100, 1000, 9999, 10000}
@@ -530,6 +555,9 @@ func checkC16(c *Ctx) {
 		}
 		if n >= 9999 {
 			k = 3
+			if c.Tier != "thorough" {
+				k = 1
+			}
 		}
 		for i := 0; i < k; i++ {
 			o := GenOpts{Profile: "c16", Mode: "test", MinReg: n, MaxReg: n, Latency: "zero", ExplicitUEs: 3, OptIEs: i%2 == 0}
